@@ -35,9 +35,10 @@ VARIABLES tree,
           filesValid, cachedFiles,
           watch,      \* Paths -> indicator (content id | Dir-with-children digest) | NoneInd | Unwatched
           ext,        \* paths touched behind rope's back since the last validate
+          rootsSeen,  \* the source-folder sets this behaviour went through
           trail       \* actions taken
 
-vars == <<tree, src, concl, filesValid, cachedFiles, watch, ext, trail>>
+vars == <<tree, src, concl, filesValid, cachedFiles, watch, ext, rootsSeen, trail>>
 
 NoConcl == { <<"?">> }
 
@@ -51,6 +52,19 @@ Indicator(t, p) == IF IsDir(t, p) THEN { <<c, 0>> : c \in Children(t, p) } \cup 
                    ELSE { <<p, t[p]>> }
 \* import target m (a path) resolves iff it is present
 Resolved(t, c) == { m \in ImportsOf[c] : Present(t, m) }
+
+\* PyCore._find_source_folders: a folder with a package child is the only
+\* source folder of its subtree; otherwise it is one if it holds a .py file,
+\* and the search descends.  Module lookup by name starts from these, so a
+\* change of this set changes what imports resolve to.
+IsPackage(t, d) == IsDir(t, d) /\ Append(d, "i") \in Paths /\ IsFile(t, Append(d, "i"))
+ChildDirs(t, d) == { p \in DirPaths : Len(p) = Len(d) + 1 /\ IsPrefix(d, p) /\ IsDir(t, p) }
+HasPy(t, d) == \E p \in FilePaths : Len(p) = Len(d) + 1 /\ IsPrefix(d, p) /\ IsFile(t, p)
+RECURSIVE SourceRoots(_, _)
+SourceRoots(t, d) ==
+  IF \E c \in ChildDirs(t, d) : IsPackage(t, c) THEN {d}
+  ELSE (IF HasPy(t, d) THEN {d} ELSE {}) \cup UNION { SourceRoots(t, c) : c \in ChildDirs(t, d) }
+Roots(t) == SourceRoots(t, << >>)
 
 (***************************************************************************)
 (* cache bookkeeping                                                       *)
@@ -121,6 +135,7 @@ RopeMutate(l) ==
                /\ src' = r.s /\ concl' = r.c /\ watch' = r.w
                /\ filesValid' = FALSE /\ UNCHANGED cachedFiles
   /\ trail' = Append(trail, Act("rope", l))
+  /\ rootsSeen' = rootsSeen \cup {Roots(LeafApply(tree, l))}
   /\ UNCHANGED ext
 
 (***************************************************************************)
@@ -134,6 +149,7 @@ ExtMutate(l) ==
   /\ tree' = LeafApply(tree, l)
   /\ ext' = ext \cup Touched(l)
   /\ trail' = Append(trail, Act("ext", l))
+  /\ rootsSeen' = rootsSeen \cup {Roots(LeafApply(tree, l))}
   /\ UNCHANGED <<src, concl, filesValid, cachedFiles, watch>>
 
 Validate ==
@@ -151,7 +167,7 @@ Validate ==
   /\ filesValid' = FALSE
   /\ ext' = {}
   /\ trail' = Append(trail, Act("validate", Leaf("-", NoPath, NoPath, 0)))
-  /\ UNCHANGED <<tree, cachedFiles>>
+  /\ UNCHANGED <<tree, cachedFiles, rootsSeen>>
 
 (***************************************************************************)
 (* queries warm the caches                                                 *)
@@ -163,7 +179,7 @@ QueryFiles ==
   /\ filesValid' = TRUE
   /\ cachedFiles' = PresentFiles(tree)
   /\ trail' = Append(trail, Act("files", Leaf("-", NoPath, NoPath, 0)))
-  /\ UNCHANGED <<tree, src, concl, watch, ext>>
+  /\ UNCHANGED <<tree, src, concl, watch, ext, rootsSeen>>
 
 \* project.get_pymodule(p) and inspection of its attributes: p and every
 \* module it imports (that exists) get cached and watched; the resolution is
@@ -190,7 +206,7 @@ QueryModule(p) ==
         /\ watch' = r.w
         /\ concl' = [concl EXCEPT ![p] = targets]
   /\ trail' = Append(trail, Act("module", Leaf("-", p, NoPath, 0)))
-  /\ UNCHANGED <<tree, filesValid, cachedFiles, ext>>
+  /\ UNCHANGED <<tree, filesValid, cachedFiles, ext, rootsSeen>>
 
 Init ==
   /\ tree \in InitTreesC
@@ -200,6 +216,7 @@ Init ==
   /\ cachedFiles = {}
   /\ watch = [p \in Paths |-> Unwatched]
   /\ ext = {}
+  /\ rootsSeen = {Roots(tree)}
   /\ trail = << [act |-> "init", leaf |-> Leaf("-", NoPath, NoPath, 0), tree |-> TreePairs(tree)] >>
 
 CLeaves == { l \in AllLeaves : /\ (IF l.k = "W" THEN l.c \in Contents ELSE TRUE)
@@ -215,7 +232,7 @@ Next ==
 
 Spec == Init /\ [][Next]_vars
 
-View == <<tree, src, concl, filesValid, cachedFiles, watch, ext>>
+View == <<tree, src, concl, filesValid, cachedFiles, watch, ext, rootsSeen>>
 
 (***************************************************************************)
 (* C13 on the model: whatever the caches would answer equals the truth     *)
